@@ -199,9 +199,28 @@ func ruleBudgetReaches(c *core.Ctx) {
 			o.At(fn.Site(fn.Decl, ""))
 			o.Shape(strings.Contains(src, "budget:=membudget.New(limits.StreamBudget(x.length))"), "%s does not derive the budget from the raw stream length", name)
 			b := localVar(fn, "budget", 0)
-			for _, cs := range core.CallsIn(info, fn.Decl, true) {
-				if strings.HasSuffix(cs.Key, ".Decode") {
-					o.Require(core.ObjOf(info, cs.Call.Args[len(cs.Call.Args)-1]) == b, "%s: a layer is created with a different budget", name)
+			g := fn.Graph()
+			for _, v := range g.Vs {
+				if v.AST == nil {
+					continue
+				}
+				for _, cs := range core.CallsIn(info, v.AST, false) {
+					if !strings.HasSuffix(cs.Key, ".Decode") || len(cs.Call.Args) == 0 {
+						continue
+					}
+					// the budget itself, or a local / a field of a local struct that was given it
+					arg := cs.Call.Args[len(cs.Call.Args)-1]
+					same := core.ObjOf(info, arg) == b
+					at := v
+					for depth := 0; !same && depth < 4; depth++ {
+						vc := valueCases(g, at, arg, 1)
+						if len(vc) != 1 || vc[0].V == nil || vc[0].Expr == arg {
+							break
+						}
+						arg, at = vc[0].Expr, vc[0].V
+						same = core.ObjOf(info, arg) == b
+					}
+					o.Require(same, "%s: a layer is created with a different budget", name)
 				}
 			}
 		}
